@@ -71,6 +71,7 @@ type caseReq struct {
 	Streamerr string `json:"streamerr"`
 	Qk        string `json:"qk"`
 	Bk        string `json:"bk"`
+	Enc       string `json:"enc"`
 }
 
 // caseIn: cases with the same Grp run on one rig in file order; Reset says
@@ -826,8 +827,13 @@ var passPaths = map[string][]string{
 	"nm-case":     {"/api/v0/Pin/Add", "/API/v0/add", "/api/V0/pin/rm", "/api/v0/ADD", "/api/v0/repo/GC", "/api/v0/pin/Ls"},
 	"api-other":   {"/api/v0/version", "/api/v0/id", "/api/v0/cat", "/api/v0/pin/verify", "/api/v0/block/put", "/api/v0/files/ls", "/api/v0/dag/get", "/api/v0/swarm/peers", "/api/v0/repo/verify", "/api/v0/repo/version", "/api/v0/object/get", "/api/v0/name/publish", "/api/v0/pin/remote/add", "/api/v0/pin/remote/ls"},
 	"root":        {"/", "/webui", "/favicon.ico", "/ipfs/QmUNLLsPACCz1vLxQVkXqqLX5R1X345qqfHbsf67hvA3Nn/x", "/ipns/example.com/", "/debug/metrics/prometheus", "/version"},
-	"escaped":     {"/api/v0/foo%20bar", "/ipfs/%C3%A9t%C3%A9", "/a%41b", "/x%2fy", "/api/v0/cat%2Fx", "/~user/(paren)", "/a+b", "/a;b=c", "/a:b@c", "/a,b&c", "/a%25b", "/api/v0/pin/add%20"},
-	"unclean":     {"/api/v0//version", "/api/v0/./id", "/api/v0/x/../version", "//", "/a//b", "/webui/../webui", "/api//v0/cat", "/ipfs/./Qm"},
+	// percent-encoded spellings that decode to a near-miss of a pinning endpoint
+	"nm-encoded": {"/api/v0/pin/%61ddx", "/api/v0/pin%2Faddx", "/api/v1/pin%2Fadd", "/api/v0/%61dd%2Fx%2Fy", "/api/v0/pin%2F",
+		"/api%2Fv0/pin", "/api/v0/repo%2Fgcx", "/api/v0/pin/ls%2F", "/api/v0/pin/add%2Fa%2Fb", "/api/v0/%41dd", "/api/v0/pin/%52m",
+		"/api/v0/pin%2Fupdate%2Fx", "/api/v0%2Frepo%2Fstat%2F", "/%61pi/v1/add", "/api/v0/pin/%61dd%20", "/api/v0/pin%252Fadd",
+		"/api/v0/pin%252Frm", "/api/v0/%2561dd", "/api/v0/repo/g%63%63", "/pin%2Fadd", "/api/v0/%61dd/"},
+	"escaped": {"/api/v0/foo%20bar", "/ipfs/%C3%A9t%C3%A9", "/a%41b", "/x%2fy", "/api/v0/cat%2Fx", "/~user/(paren)", "/a+b", "/a;b=c", "/a:b@c", "/a,b&c", "/a%25b", "/api/v0/pin/add%20"},
+	"unclean": {"/api/v0//version", "/api/v0/./id", "/api/v0/x/../version", "//", "/a//b", "/webui/../webui", "/api//v0/cat", "/ipfs/./Qm"},
 }
 
 const alnum = "abcdefghijklmnopqrstuvwxyz0123456789"
@@ -908,6 +914,63 @@ func (r *rig) passBody(k string) ([]byte, string, bool) {
 	return nil, "", false
 }
 
+// spell writes the fixed part of a pinning endpoint's path (plus, for the /arg
+// style, the separating slash) with percent-encoded characters as asked by
+// enc: "letter" encodes one or more letters/digits, "slash" one or more of the
+// non-leading slashes, "both" at least one of each. The result decodes to the
+// plain spelling.
+func (r *rig) spell(fixed, enc string, withSep bool) string {
+	if withSep {
+		fixed += "/"
+	}
+	if enc == NA || enc == "" {
+		return fixed
+	}
+	var letters, slashes []int
+	for i := 0; i < len(fixed); i++ {
+		ch := fixed[i]
+		switch {
+		case ch == '/' && i > 0:
+			slashes = append(slashes, i)
+		case ch != '/':
+			letters = append(letters, i)
+		}
+	}
+	pick := func(idx []int) map[int]bool {
+		m := map[int]bool{idx[r.rng.Intn(len(idx))]: true}
+		for _, i := range idx {
+			if r.rng.Intn(4) == 0 {
+				m[i] = true
+			}
+		}
+		return m
+	}
+	encode := map[int]bool{}
+	if enc == "letter" || enc == "both" {
+		for i := range pick(letters) {
+			encode[i] = true
+		}
+	}
+	if enc == "slash" || enc == "both" {
+		for i := range pick(slashes) {
+			encode[i] = true
+		}
+	}
+	var b strings.Builder
+	for i := 0; i < len(fixed); i++ {
+		if encode[i] {
+			f := "%%%02X"
+			if r.rng.Intn(2) == 0 {
+				f = "%%%02x"
+			}
+			fmt.Fprintf(&b, f, fixed[i])
+		} else {
+			b.WriteByte(fixed[i])
+		}
+	}
+	return b.String()
+}
+
 type kv struct{ k, v string }
 
 func (r *rig) encodeQuery(ps []kv) string {
@@ -957,7 +1020,7 @@ func (r *rig) concretise(q caseReq) concrete {
 		c.body, c.ctype, c.unknown = r.passBody(q.Bk)
 		return c
 	}
-	c.path = "/api/v0/" + q.Route
+	c.path = r.spell("/api/v0/"+q.Route, q.Enc, false)
 	ps := []kv{}
 	opt := func(k, v string) {
 		if v != NA {
@@ -979,7 +1042,7 @@ func (r *rig) concretise(q caseReq) concrete {
 	switch q.Route {
 	case "pin/add", "pin/rm", "pin/ls":
 		if q.Style == "slash" {
-			c.path += "/" + r.w.argText[q.Arg]
+			c.path = r.spell("/api/v0/"+q.Route, q.Enc, true) + r.w.argText[q.Arg]
 		} else {
 			arg(q.Arg)
 		}
